@@ -251,7 +251,7 @@ func checkC09(r *fw.Run) {
 		return
 	}
 	rng := r.Rng("progs")
-	n := r.Pick(40, 1500)
+	n := r.Pick(40, 350)
 	feat := map[string]int{}
 	var progs []*Prog
 	for i := 0; i < n; i++ {
